@@ -35,6 +35,8 @@ func (s *Sim) runW1() {
 		s.installRecvErr(sc.RecvErrAt)
 	}
 	s.installW1Oracles()
+	s.installC17()
+	s.installC20()
 	s.installOperator()
 	s.bootReceiver(filepath.Join(s.ws, "r0"), 0)
 	s.bootSender(filepath.Join(s.ws, "s0"), 0)
